@@ -573,4 +573,9 @@ def run(ctx):
         missing = [o for o in r2.obs if o.key not in have]
         res.add(missing)
         res.note("release-semantics extraction (-C overflow-checks=off): %d cast sites, %d not seen in the default configuration" % (len(r2.obs), len(missing)))
+    # an asset's class is not changed on the way: a token whose class is merged into another one (an unnamed token folded
+    # into lovelace) is a quantity that disappears from its class and appears in another (rule shared with C15)
+    from . import c15
+    res.rule("I-CLASS", "from_asset sends each presence combination of (policy, name) to its own asset class")
+    c15.i_class(F, res)
     return res
